@@ -239,7 +239,10 @@ def model_correspondence(ctx, model, tinfo, grid_native, dist):
             x = c[0] | (JUNK if ptypes[0] == "i32" else 0)
             y = (c[1] | (JUNK if ptypes[1] == "i32" else 0)) if len(c) > 1 else 0
             ops.append("row %s %d %d 0" % (name, x, y))
-            expect.append("ok %d kept" % (int(line) % (1 << bits)))
+            try:
+                expect.append("ok %d kept" % (int(line) % (1 << bits)))
+            except ValueError:           # the executable printed something that is not a number (a broken print helper): a difference
+                expect.append("hardware-printed %r" % line[:40])
             masks.append(bits)
     # #DE cases: the model must fault exactly where the hardware raises SIGFPE (observed by the trap jobs / witness replay)
     for name, ins, cases in work:
